@@ -78,7 +78,7 @@ def work(ctx, tier):
         ctx.inc("boundary_scenarios")
     n = (5000 if tier == "quick" else 150000) // ctx.nshards
     for k in range(n):
-        sc = gen.rand_scenario(rng, p_special=0.02, p_budget=0.2, p_handler=0.2, p_abort=0.1, ncalls=(1, 2), p_no_sleeper=0.3, p_strategy_objects=0.4, rf_time=True, p_via_config=0.3, p_via_attrs=0.25)
+        sc = gen.rand_scenario(rng, p_special=0.02, p_budget=0.2, p_handler=0.2, p_abort=0.1, ncalls=(1, 2), p_no_sleeper=0.3, p_strategy_objects=0.4, rf_time=True, p_via_config=0.3, p_via_attrs=0.25, p_attempt_timeout=0.15)
         for e in common.pick_entries(rng, rig.ENTRIES, 2):
             _one(ctx, sc, e, stats, rng)
         ctx.inc("random_scenarios")
